@@ -141,7 +141,12 @@ impl<'l> PktParser<'l> {
                     domainv.push(dnspkt::Label::from(self.get_bytes(prefix as usize)?));
                 }
                 offset_high if offset_high & 0b1100_0000 == 0b1100_0000 => {
-                    if depth > 10 {
+                    /* A name is at most 255 octets, so 127 labels.  A compressing encoder
+                     * (including ours) can take one pointer per label when every name in a
+                     * message extends the previous one, so that is the longest chain that can be
+                     * legitimate.
+                     */
+                    if depth > 127 {
                         return Err("Compression Corruption".into());
                     }
                     // Compressed label.
